@@ -563,6 +563,31 @@ func run1(t *testing.T, c Case) (res Result) {
 				b.Close()
 				return img, err
 			})
+		case "H8b-wal-tx-after-checkpoint":
+			// Three WAL transactions (the newest LTX records a large WAL offset), a RESTART or TRUNCATE checkpoint, then a
+			// small transaction that starts the next WAL generation (new salts) and dies at every point.
+			e.single(t, true, func(n *lab.Node, a *pager.Conn, img *oracle.Image) *oracle.Image {
+				cur := img
+				for i := 0; i < 3; i++ {
+					r := a.RunWTx(pager.WTx{Frames: []uint32{1, 2, 3}, Outcome: "commit"}, cur)
+					if r.Err != nil || !r.Committed {
+						e.res.Harness = "prep wtx failed"
+						return nil
+					}
+					cur = r.Intended
+				}
+				if err := a.Checkpoint([]string{"TRUNCATE", "RESTART"}[c.Variant%2], 0); err != nil {
+					e.res.Harness = "prep checkpoint failed: " + err.Error()
+					return nil
+				}
+				return cur
+			}, func(n *lab.Node, col *collector, a *pager.Conn, img *oracle.Image) (*oracle.Image, error) {
+				r := a.RunWTx(pager.WTx{Frames: []uint32{2}, Outcome: "commit"}, img)
+				if r.Err != nil || !r.Committed {
+					return nil, fmt.Errorf("%v at %s", r.Err, r.ErrStep)
+				}
+				return r.Intended, nil
+			})
 		case "H9-litefs-recover":
 			e.single(t, c.Variant%2 == 1, func(n *lab.Node, a *pager.Conn, img *oracle.Image) *oracle.Image {
 				if c.Variant%2 == 1 {
@@ -732,7 +757,7 @@ func TestCheck(t *testing.T) {
 		variants int
 	}{
 		{"H1-first-tx", 6}, {"H2-grow", 3}, {"H3-shrink", 3}, {"H4-multi-segment", 3}, {"H5-rollback-after-spill", 3},
-		{"H6-wal-fresh", 3}, {"H7-wal-after-restart", 2}, {"H7b-wal-second-tx", 2}, {"H8-sqlite-checkpoint", 4}, {"H9-litefs-recover", 2},
+		{"H6-wal-fresh", 3}, {"H7-wal-after-restart", 2}, {"H7b-wal-second-tx", 2}, {"H8-sqlite-checkpoint", 4}, {"H8b-wal-tx-after-checkpoint", 2}, {"H9-litefs-recover", 2},
 		{"H12-drop", 2}, {"H14-import", 4}, {"H10-replica-incremental", 2}, {"H10w-replica-incremental-wal", 2}, {"H11-replica-snapshot", 2}, {"H11b-replica-resnapshot", 2}, {"H15-restore-from-backup", 2}, {"H13-replica-tombstone", 2},
 	}
 	type geo struct {
